@@ -508,6 +508,41 @@ func concurrentHistory(id int, rng *rand.Rand, dir string) vO {
 
 // ---------------------------------------------------------------- routing and re-processing of emissions (C14, mcrew host)
 
+// routeTok describes a routing target for the judge (see spec/Trace_McrewRoute.tla)
+func routeTok(m map[string]interface{}) vT {
+	x, have := m["to"]
+	if !have {
+		return vT{"none"}
+	}
+	switch vv := x.(type) {
+	case string:
+		return vT{"str", vv}
+	case []interface{}:
+		t := vT{"list"}
+		for _, y := range vv {
+			if s, is := y.(string); is {
+				t = append(t, s)
+			} else {
+				t = append(t, "#nonstring")
+			}
+		}
+		return t
+	}
+	return vT{"other"}
+}
+
+func describe(m map[string]interface{}) map[string]interface{} {
+	return map[string]interface{}{"m": m["m"], "tok": routeTok(m)}
+}
+
+func describeAll(ms []interface{}) vT {
+	out := vT{}
+	for _, m := range ms {
+		out = append(out, describe(m.(map[string]interface{})))
+	}
+	return out
+}
+
 // routeHistory: recorder machines a, b, c that emit fixed lists (a -> b, c; b -> c; acyclic) whenever they
 // are presented a message.  Every Process invocation is observed at the process-locked hook.
 func routeHistory(id int, rng *rand.Rand, dir string) vO {
@@ -545,48 +580,69 @@ func routeHistory(id int, rng *rand.Rand, dir string) vO {
 		for i, n := 0, rng.Intn(4); i < n; i++ {
 			seq++
 			m := map[string]interface{}{"m": "e" + strconv.Itoa(seq)}
-			if to := tos[rng.Intn(len(tos))]; to != "" {
+			switch to := tos[rng.Intn(len(tos))]; to {
+			case "":
+			case "#list":
+				m["to"] = []interface{}{"c", "nobody", "c", float64(3)}
+			default:
 				m["to"] = to
 			}
 			out = append(out, m)
 		}
 		return out
 	}
-	emits := map[string][]interface{}{"a": mk([]string{"b", "c", "c", "nobody"}), "b": mk([]string{"c", "nobody"}), "c": {}}
+	emits := map[string][]interface{}{"a": mk([]string{"b", "c", "c", "nobody", "#list"}), "b": mk([]string{"c", "nobody", "#list"}), "c": {}}
+	// The first history of every run is the burst scenario of the known finding F-C14-mcrew-emitted-dropped: the host's
+	// Emitted channel holds 2 messages (mcrew's main.go gives it 8), one step emits 5, and the host reads the channel only
+	// after processing has gone quiet.
+	burst := id == 1
+	if burst {
+		s.Emitted = make(chan interface{}, 2)
+		five := []interface{}{}
+		for i := 0; i < 5; i++ {
+			seq++
+			five = append(five, map[string]interface{}{"m": "e" + strconv.Itoa(seq), "to": "nobody"})
+		}
+		emits = map[string][]interface{}{"a": five, "b": {}, "c": {}}
+	}
 	machines := vO{}
 	for _, mid := range []string{"a", "b", "c"} {
+		if burst && mid != "a" {
+			continue
+		}
 		if mid != "a" && rng.Intn(4) == 0 {
 			continue
 		}
 		if err := s.AddMachine(ctx, "counter", mid, "", match.Bindings{"emit": emits[mid]}); err != nil {
 			panic(err)
 		}
-		machines[mid] = vO{"emit": emits[mid]}
+		machines[mid] = vO{"emit": describeAll(emits[mid])}
 	}
 	externals := vT{}
-	for i, n := 0, 1+rng.Intn(2); i < n; i++ {
+	for i, n := 0, 1+rng.Intn(2); i < n && !(burst && i > 0); i++ {
 		seq++
 		m := map[string]interface{}{"m": "x" + strconv.Itoa(seq)}
-		switch rng.Intn(6) {
-		case 0: // broadcast
-		case 1:
+		switch k := rng.Intn(9); {
+		case burst:
+			m["to"] = "a"
+		case k == 0: // broadcast
+		case k == 1:
 			m["to"] = float64(7) // not a machine id: broadcast
-		case 2:
+		case k == 2:
 			m["to"] = "timers"
 			m["deleteTimer"] = "nosuchtimer"
-		case 3:
+		case k == 3:
 			m["to"] = "nobody"
+		case k == 4:
+			m["to"] = "*"
+		case k == 5:
+			m["to"] = []interface{}{"a", "c"}
+		case k == 6:
+			m["to"] = []interface{}{"b", "b", float64(7), "nobody", "a"}
 		default:
 			m["to"] = "a"
 		}
-		desc := map[string]interface{}{}
-		for k, v := range m {
-			desc[k] = v
-		}
-		if _, is := desc["to"].(float64); is {
-			desc["to"] = "#nonstring" // (TLC cannot compare a number with strings)
-		}
-		delete(desc, "deleteTimer")
+		desc := describe(m)
 		externals = append(externals, desc)
 		s.Process(ctx, m, nil)
 		// wait until the asynchronous re-processing has gone quiet
@@ -621,7 +677,7 @@ func routeHistory(id int, rng *rand.Rand, dir string) vO {
 	pr := processed
 	mu.Unlock()
 	raw, _ := json.Marshal(vO{"machines": machines, "externals": externals})
-	return vO{"id": id, "kind": "mcrew-route", "host": "mcrew", "machines": machines, "externals": externals, "processed": pr, "logs": logs, "reported": reported, "raw": string(raw)}
+	return vO{"id": id, "kind": "mcrew-route", "host": "mcrew", "machines": machines, "externals": externals, "processed": pr, "logs": logs, "reported": reported, "burst": burst, "emittedBuffer": cap(s.Emitted), "raw": string(raw)}
 }
 
 // ---------------------------------------------------------------- entry point
